@@ -60,14 +60,16 @@ WITNESS = [
     (r"flush|sync_all|sync_data|dirty", [["flushdur"], ["durable"], ["history", "1", "12", "300"]]),
     (r"open_with_params|check_.*header|init_header|kani:c13|kani:c12", [["reopen"], ["bufsize", "131072"], ["bufsize", "1000"], ["scan", "4", "a"], ["sigmut"], ["durable"], ["history", "1", "12", "300"]]),
 ]
-# ---- bounded stand-in (labelled BOUNDED, never counted as proved): scenario families per property. Run in the thorough tier always,
-# and in the quick tier only when the deductive leg cannot decide (code moved out of the verifier's reach: lost anchor, unsupported
-# construct, resource limit). A failing scenario is a real failing input on the real crate -> VIOLATION; passing scenarios prove nothing.
-_H = [["history", "1", "12", "300"], ["history", "5", "6", "800"], ["history", "9", "30", "800"], ["history", "11", "3", "500"]]
+# ---- bounded stand-in (labelled BOUNDED, never counted as proved): scenario families per property, run on the real crate in every
+# check (they take well under a second each). They stand in for code the deductive leg cannot reach (the FileDb registries and the
+# DbXxx front-ends, see DESIGN 10.5) and for code a change has moved out of the verifier's reach (lost anchor, unsupported construct:
+# the deductive leg is then UNDECIDED). A failing scenario is a real failing input -> VIOLATION; passing scenarios prove nothing.
+_H = [["history", "1", "12", "300"], ["history", "5", "6", "800"], ["history", "9", "30", "800"], ["history", "11", "3", "500"]] + \
+     [["history", str(sd), str(nk), str(no)] for sd, nk, no in ((21, 2, 400), (22, 4, 600), (23, 8, 600), (24, 16, 900), (25, 5, 1500), (26, 10, 1500), (27, 60, 1200), (28, 7, 2500))]
 _SC = [["scan", "128", "k25", "k312", "k911", "k303"], ["scan", "8", "a", "b", "c", "d", "e", "f", "g", "h", "i", "j"], ["scan", "4", "a"],
        ["scan", "64", "k1", "k2", "k3", "k4", "k5", "k6", "k7", "k8", "k9", "k10", "k11", "k12"]]
 BOUNDED_SCEN = {
-    "C01": _H + [["putget", "5000"], ["putsweep"]], "C02": [["reopen"], ["durable"]] + _H[:2], "C03": [["flushdur"], ["durable"]],
+    "C01": _H + [["putget", "5000"], ["putsweep"]], "C02": [["reopen"], ["durable"], ["dbsync"]] + _H[:4], "C03": [["flushdur"], ["durable"], ["dbsync"]],
     "C04": _SC + _H[:2], "C05": _H + [["reuse"]], "C06": [["reuse"], ["putsweep"]] + _H, "C07": [["bufsize", "131072"], ["bufsize", "1000"], ["reopen"], ["scan", "4", "a"]] + _H[:1],
     "C08": _H, "C09": [["putget", "5000"], ["putget", "70000"], ["putsweep"]], "C12": [["reopen"]], "C13": [["sigmut"]], "C15": [["readonly"]],
     "C14": [["bulk"]], "C16": [["flushdur"]], "C17": [["stats"]], "C18": [["determ"]],
@@ -148,6 +150,12 @@ def do_replay(prop, path):
     print("source: %s" % d.get("source"))
     print("verifier output:\n%s" % (d.get("verifier_output") or "")[:3000])
     w = d.get("witness")
+    if w and w.get("kani_playback_test"):
+        print("counterexample: %s" % w.get("counterexample_values"))
+        rc, out = kanileg.replay_test(run.REPO, w.get("module_file"), w["kani_playback_test"])
+        print("native replay of the counterexample against the current tree:\n%s" % out)
+        print("REPLAY %s" % ("reproduces" if rc == 1 else "does not reproduce on this tree" if rc == 0 else "could not run"))
+        return rc
     if w and w.get("replay_scenario"):
         exe = _replay_exe()
         if not exe: print("replay binary could not be built"); return 2
@@ -163,11 +171,16 @@ def kani_leg(prop, tier):
     kcfg = KANI.get(prop)
     if not kcfg: return {}
     hs = list(kcfg["complete"]) + (KANI_THOROUGH_EXTRA.get(prop, []) if tier == "thorough" else []) + list(kcfg["bounded"].keys())
-    return kanileg.run(run.REPO, hs)
+    known = run.load_known()
+    return kanileg.run(run.REPO, hs, want_playback=lambda h: run.match_known(known, prop, "kani:%s/check" % h) is None)
 
 def check(prop, tier, args):
     t0 = time.time()
-    fut_kani = None
+    import concurrent.futures
+    pool = concurrent.futures.ThreadPoolExecutor(max_workers=4)
+    # Kani leg and the bounded stand-in scenarios are independent of the Verus leg: start them now, join later
+    fut_kani = pool.submit(kani_leg, prop, tier)
+    fut_scen = pool.submit(bounded_scenarios, prop) if prop in BOUNDED_SCEN else None
     if getattr(args, "replay", None):
         return do_replay(prop, args.replay)
     seed = int(os.environ.get("VERIF_SEED", "0") or 0)
@@ -203,15 +216,12 @@ def check(prop, tier, args):
         open(upath, "w").write(unit.text)
         rl = 30 if tier == "quick" else 60
         # the canary run and the Kani leg do not depend on the main run: start them now, join later
-        import concurrent.futures
-        pool = concurrent.futures.ThreadPoolExecutor(max_workers=3)
         def _canary():
             cunit_ = vx.generate(vx.Repo(run.REPO), ov, prop, canary=True)
             cpath_ = os.path.join(outdir, "canary_%s.rs" % prop)
             open(cpath_, "w").write(cunit_.text)
             return cunit_, run.run_verus(cpath_, cunit_, rlimit=rl, seed=seed)
         fut_canary = pool.submit(_canary)
-        fut_kani = pool.submit(kani_leg, prop, tier)
         r1 = run.run_verus(upath, unit, rlimit=rl, seed=seed)
         checker_cmds.append(r1.cmd)
         undecided += r1.undecided
@@ -285,7 +295,7 @@ def check(prop, tier, args):
         if tier == "thorough":
             kcfg = dict(kcfg); kcfg["complete"] = list(kcfg["complete"]) + KANI_THOROUGH_EXTRA.get(prop, [])
         hs = list(kcfg["complete"]) + list(kcfg["bounded"].keys())
-        kr = fut_kani.result() if fut_kani is not None else kani_leg(prop, tier)
+        kr = fut_kani.result()
         if kr.get("_undecided"):
             undecided.append("kani: " + kr["_undecided"])
         else:
@@ -304,14 +314,23 @@ def check(prop, tier, args):
                                     "backend": "cbmc via kani" + (" (BOUNDED: %s)" % kcfg["bounded"][h] if bounded else " (complete)")})
                 elif st["status"] == "FAILED":
                     if not bounded: obligations += nchk; discharged += nchk - st.get("failed_checks", 1)
+                    pb = st.get("playback") or {}
+                    wit = None
+                    if pb.get("reproduces"):
+                        wit = {"counterexample_values": pb.get("values"), "kani_playback_test": pb.get("test"), "module_file": pb.get("module_file"),
+                               "real_code_output": pb.get("replay_output"),
+                               "how": "CBMC's counterexample, turned by Kani into a #[test] in the (add-only) harness module and run natively against the crate's real code"}
                     failures.append({"fn": "kani:" + h, "kind": "harness", "detail": "; ".join(st.get("failed", []))[:300],
                                      "oid": "kani:%s/check" % h, "backend": "kani", "message": "kani harness FAILED",
-                                     "rendered": kani_excerpt(kr.get("_log", ""), h), "src": None})
+                                     "rendered": kani_excerpt(kr.get("_log", ""), h) + ("\n[counterexample extraction: %s]" % pb["error"] if pb.get("error") else ""),
+                                     "src": None, "witness": wit})
                 else:
                     undecided.append("kani harness %s did not run" % h)
     # ------------------------------------------------------------------ bounded stand-in
-    if (undecided or tier == "thorough" or LEVEL.get(prop) == "other") and prop in BOUNDED_SCEN:
-        for r_ in bounded_scenarios(prop):
+    if fut_scen is not None:
+        scen_res = fut_scen.result()
+        if not scen_res: undecided.append("the replay binary could not be built against the working tree (bounded stand-in scenarios did not run)")
+        for r_ in scen_res:
             sc = "abyss-replay " + " ".join(r_["argv"])
             bounded_parts.append({"scenario": sc, "bound": "one concrete history on the real crate (public API)", "status": "ok" if r_["ok"] else "FAILED"})
             if not r_["ok"]:
